@@ -13,11 +13,16 @@ import (
 	"fmt"
 	"net/http/httptest"
 	"os"
+	"os/exec"
+	"path/filepath"
 	"strings"
 	"sync"
 	"time"
 
+	"github.com/bitcoin-sv/block-headers-service/cli"
+	"github.com/bitcoin-sv/block-headers-service/config"
 	"github.com/bitcoin-sv/block-headers-service/domains"
+	"github.com/bitcoin-sv/block-headers-service/logging"
 	"github.com/bitcoin-sv/block-headers-service/metrics"
 	"github.com/bitcoin-sv/block-headers-service/repository"
 	"github.com/bitcoin-sv/block-headers-service/service"
@@ -207,7 +212,7 @@ func (r *pausingTokRepo) GetTokenByValue(tok string) (*domains.Token, error) {
 
 // adminTokenVariants: admin-token configurations beside the default one - lengths around the length of issued
 // tokens (32) and far from it, and characters other than alphanumerics that the header grammar allows
-// (no space; no ';' ':' '$' because of the case syntax; nothing that needs escaping in a URL path segment).
+// (no space); in case lines the value is percent-encoded (pctEncode), so it may contain '$' ';' ':' etc.
 func adminTokenVariants() []string {
 	rpt := func(pat string, n int) string {
 		var sb strings.Builder
@@ -226,6 +231,8 @@ func adminTokenVariants() []string {
 		rpt("fedcba9876543210", 64),
 		rpt("LongAdminToken0", 100),
 		"Adm-1n_t0k.en~x!y*z(w)+v,u=s@q",
+		// literal '$' (and ';' ':'): a configured secret is a literal, whatever it looks like
+		"Adm$in4Token-9fK2", "$HOME", "${PATH}x", "a$$b", "tok$1", "semi;colon:and$dollar",
 	}
 }
 
@@ -267,4 +274,159 @@ func waitFor(d time.Duration, cond func() bool) bool {
 		time.Sleep(200 * time.Microsecond)
 	}
 	return cond()
+}
+
+// ---- the admin token as the SERVICE obtains it ----
+//
+// The admin-token dimension does not inject the value into the AppConfig struct: the configured literal is written
+// to a config file or to BHS_HTTP_AUTH_TOKEN and the real config.SetDefaults + cli.LoadFlags + config.Load run in a
+// child process (`harness c10cfgchild <dir> [-C file]`, viper/pflag state is process-global); the stack is built
+// with the value THAT yields, while the model (and every credential presented) keeps the configured literal.
+
+func init() { register("c10cfgchild", runC10CfgChild) }
+
+func runC10CfgChild(c *Ctx) error {
+	os.Args = append([]string{os.Args[0]}, os.Args[3:]...) // what the service's main() would see
+	res := "ERR unknown"
+	func() {
+		defer func() {
+			if r := recover(); r != nil {
+				res = "ERR panic " + strings.ReplaceAll(fmt.Sprint(r), "\n", " ")
+			}
+		}()
+		log := logging.GetDefaultLogger()
+		if err := config.SetDefaults("development", log); err != nil {
+			res = "ERR SetDefaults " + err.Error()
+			return
+		}
+		cfg := config.GetDefaultAppConfig()
+		if err := cli.LoadFlags(cfg); err != nil {
+			res = "ERR LoadFlags " + err.Error()
+			return
+		}
+		got, _, err := config.Load(cfg)
+		if err != nil {
+			res = "ERR Load " + err.Error()
+			return
+		}
+		if got.HTTP == nil {
+			res = "ERR no http section"
+			return
+		}
+		res = "OK " + got.HTTP.AuthToken
+	}()
+	return os.WriteFile(filepath.Join(c.Out, "auth_token.txt"), []byte(res), 0o644)
+}
+
+var effTokCache = map[string]string{}
+var effTokMu sync.Mutex
+
+// effectiveAdminToken: the value the service ends up with when `configured` is set through source
+// "e" (environment BHS_HTTP_AUTH_TOKEN) or "f" (http.auth_token of a YAML file given with -C); "d" = the value
+// itself (direct injection).  An error text (not a Go error) comes back as ok=false.
+func effectiveAdminToken(tmp, configured, source string) (eff string, ok bool) {
+	if source == "d" || source == "" {
+		return configured, true
+	}
+	key := source + "\x00" + configured
+	effTokMu.Lock()
+	if v, hit := effTokCache[key]; hit {
+		effTokMu.Unlock()
+		return strings.TrimPrefix(v, "OK "), strings.HasPrefix(v, "OK ")
+	}
+	effTokMu.Unlock()
+	dir, err := os.MkdirTemp(tmp, "cfgchild")
+	if err != nil {
+		return "harness: " + err.Error(), false
+	}
+	defer os.RemoveAll(dir)
+	exe, err := os.Executable()
+	if err != nil {
+		return "harness: " + err.Error(), false
+	}
+	args := []string{"c10cfgchild", dir}
+	var env []string
+	for _, kv := range os.Environ() {
+		if !strings.HasPrefix(strings.ToUpper(kv), "BHS_") {
+			env = append(env, kv)
+		}
+	}
+	switch source {
+	case "e":
+		env = append(env, "BHS_HTTP_AUTH_TOKEN="+configured)
+	case "f":
+		f := filepath.Join(dir, "service.yaml")
+		yaml := "http:\n  auth_token: '" + strings.ReplaceAll(configured, "'", "''") + "'\n"
+		if err := os.WriteFile(f, []byte(yaml), 0o644); err != nil {
+			return "harness: " + err.Error(), false
+		}
+		args = append(args, "-C", f)
+	}
+	cmd := exec.Command(exe, args...)
+	cmd.Dir = dir // no ./config.yaml there
+	cmd.Env = env
+	res := ""
+	if out, err := cmd.CombinedOutput(); err != nil {
+		res = "ERR child " + err.Error() + " " + string(out)
+	} else if b, err := os.ReadFile(filepath.Join(dir, "auth_token.txt")); err != nil {
+		res = "ERR child wrote nothing"
+	} else {
+		res = string(b)
+	}
+	res = strings.NewReplacer("\n", " ", "\t", " ").Replace(res)
+	if len(res) > 300 {
+		res = res[:300]
+	}
+	effTokMu.Lock()
+	effTokCache[key] = res
+	effTokMu.Unlock()
+	return strings.TrimPrefix(res, "OK "), strings.HasPrefix(res, "OK ")
+}
+
+// pctEncode / pctDecode: how token values are written in case lines (everything but [A-Za-z0-9._~-] as %XX).
+func pctEncode(s string) string {
+	var sb strings.Builder
+	for i := 0; i < len(s); i++ {
+		ch := s[i]
+		if ch >= 'a' && ch <= 'z' || ch >= 'A' && ch <= 'Z' || ch >= '0' && ch <= '9' || ch == '.' || ch == '_' || ch == '~' || ch == '-' {
+			sb.WriteByte(ch)
+		} else {
+			fmt.Fprintf(&sb, "%%%02X", ch)
+		}
+	}
+	return sb.String()
+}
+
+func pctDecode(s string) string {
+	var sb strings.Builder
+	for i := 0; i < len(s); i++ {
+		if s[i] == '%' && i+2 < len(s) {
+			var v int
+			if _, err := fmt.Sscanf(s[i+1:i+3], "%02X", &v); err == nil {
+				sb.WriteByte(byte(v))
+				i += 2
+				continue
+			}
+		}
+		sb.WriteByte(s[i])
+	}
+	return sb.String()
+}
+
+// prewarmAdminTokens resolves every (variant, source) pair in parallel child processes (the results are cached).
+func prewarmAdminTokens(tmp string) {
+	var wg sync.WaitGroup
+	sem := make(chan struct{}, 8)
+	for _, v := range adminTokenVariants() {
+		for _, src := range []string{"e", "f"} {
+			wg.Add(1)
+			go func(v, src string) {
+				defer wg.Done()
+				sem <- struct{}{}
+				defer func() { <-sem }()
+				effectiveAdminToken(tmp, v, src)
+			}(v, src)
+		}
+	}
+	wg.Wait()
 }
